@@ -16,7 +16,7 @@ From HV Require Import model.SerialHugr spec.SerialHugrS proofs.SerialHugrP proo
   model.HugrHist spec.HugrHistS proofs.HugrHistP proofs.ComposeHistP
   model.ComposeOps proofs.ComposeOpsP model.ComposeDepth proofs.ComposeDepthP.
 From HV Require model.Validity model.Builder spec.BuilderWFS proofs.BuilderP proofs.BuilderTypeP proofs.BuilderRulesP
-  model.ComposeBuilder proofs.ComposeBuilderP proofs.ComposeBuilderOpsP.
+  model.ComposeBuilder proofs.ComposeBuilderP proofs.ComposeBuilderOpsP proofs.ComposeReplayP.
 
 Lemma view_AllOps {Op Meta} (P : Op -> Prop) (h : Graph.hugr Op Meta) : OpsIn P (view h) -> AllOps P h.
 Proof.
@@ -97,3 +97,97 @@ Section BuilderHist.
     - exact F.
   Qed.
 End BuilderHist.
+
+(* ---- the interface premise discharged: the state is the replay of the builder's store (proofs/ComposeReplayP.v) ---- *)
+Section BuilderHistTotal.
+  Notation vop := Validity.vop.
+  Notation vid := ComposeBuilderP.vid.
+  Notation v_ndp := ComposeBuilder.v_ndp.
+  Notation v_vports := ComposeBuilder.v_vports.
+  Notation v_sports := ComposeBuilder.v_sports.
+  Notation v_has_order := ComposeBuilder.v_has_order.
+  Notation unit_is_nil := ComposeBuilder.unit_is_nil.
+  Notation replay := (ComposeReplayP.replay vop vid).
+  Notation pc_of := (ComposeReplayP.pc_of vop).
+
+  (* every well-typed builder program that runs, followed by ANY mutation history without index reuse whose link calls
+     name ports the operations have *)
+  Theorem builder_then_history_total tys p st (cs : list (hcmd vop unit)) :
+    BuilderWFS.wt_prog tys p = true -> Builder.exec_prog tys p = Builder.Ok st ->
+    (Inv (replay st) /\ free (replay st) = [] /\
+     view (replay st) = ComposeBuilder.bview vop vid (pc_of (replay st)) st) /\
+    (hist_ok (replay st) cs = true -> hist_on_ports v_vports v_sports v_has_order (replay st) cs = true ->
+     all_return (replay st) cs = true /\
+     exists s h', to_serial vid v_ndp unit_is_nil (view (hrun (replay st) cs)) = Some s /\
+                  from_serial vid v_ndp tt s = Some h' /\ to_serial vid v_ndp unit_is_nil h' = Some s /\
+                  Iso vid (view (hrun (replay st) cs)) h').
+  Proof.
+    intros W E. pose proof (ComposeReplayP.replay_view vop vid st (proj1 (BuilderRulesP.exec_prog_frame tys p st E))) as R.
+    split; [exact R|]. destruct R as (HI & _ & Ev). intros HH HC.
+    exact (builder_then_history (pc_of (replay st)) tys p st (replay st) cs W E HI Ev HH HC).
+  Qed.
+
+  (* the syntactic premise: inside the store's guard, no node added after a node was deleted *)
+  Theorem builder_then_history_syntactic tys p st (cs : list (hcmd vop unit)) :
+    Builder.exec_prog tys p = Builder.Ok st ->
+    hist_in_guard (replay st) cs = true -> no_add_after_delete cs = true -> hist_ok (replay st) cs = true.
+  Proof.
+    intros E HG HN. pose proof (ComposeReplayP.replay_view vop vid st (proj1 (BuilderRulesP.exec_prog_frame tys p st E))) as (_ & Hf & _).
+    exact (no_add_after_delete_ok cs (replay st) Hf HG HN).
+  Qed.
+
+  (* ... and end to end through C05's concrete codec, for any concretisation of the builder's literals *)
+  Variable tyc : Validity.tyid -> ty.
+  Variable nm : name.
+  Notation conc := (ComposeBuilder.conc E0 tyc nm).
+  Notation creplay := (ComposeReplayP.replay (op E0) conc).
+  Theorem builder_then_history_concrete_total tys p st (cs : list (hcmd (op E0) unit)) :
+    BuilderWFS.wt_prog tys p = true -> Builder.exec_prog tys p = Builder.Ok st ->
+    ComposeBuilderOpsP.ConstsOK E0 tyc nm e0_ok st ->
+    (Inv (creplay st) /\ free (creplay st) = [] /\
+     view (creplay st) = ComposeBuilder.bview (op E0) conc (ComposeReplayP.pc_of (op E0) (creplay st)) st) /\
+    (hist_ok (creplay st) cs = true ->
+     hist_on_ports (c_vports E0 E0 e0) (c_sports E0 E0 e0) (c_has_order E0 E0 e0) (creplay st) cs = true ->
+     Forall (cmd_ops OK0) cs ->
+     all_return (creplay st) cs = true /\
+     exists s h', to_serial (c_enc E0 E0 e0) (c_ndp E0) unit_is_nil (view (hrun (creplay st) cs)) = Some s /\
+                  from_serial (c_dec E0 E0 e0) (c_ndp E0) tt s = Some h' /\
+                  to_serial (c_enc E0 E0 e0) (c_ndp E0) unit_is_nil h' = Some s /\
+                  Iso (c_enc E0 E0 e0) (view (hrun (creplay st) cs)) h').
+  Proof.
+    intros W E HCs.
+    pose proof (ComposeReplayP.replay_view (op E0) conc st (proj1 (BuilderRulesP.exec_prog_frame tys p st E))) as R.
+    split; [exact R|]. destruct R as (HI & _ & Ev). intros HH HC F.
+    exact (builder_then_history_concrete _ tyc nm tys p st (creplay st) cs W E HCs HI Ev HH HC F).
+  Qed.
+End BuilderHistTotal.
+
+(* ---- non-vacuity: the 13-node builder program of C01_wf_example (0 DFG, 1 Input, 2 Output, 3 Const, 4 LoadConst, 5 nested
+   DFG, 6 its Input, 7 its Output, 8-12 leaves), then a history: add a leaf under the nested DFG, link the nested Input to
+   it, add an order link to the nested Output, assign metadata, delete the link, add it again, delete the node: the
+   premises hold and the final HUGR has a hole at index 13 ---- *)
+Module BuilderHistWitness.
+  Import Validity.
+  Definition st : Builder.store :=
+    match Builder.exec_prog BuilderTypeP.ex2_tys BuilderTypeP.ex2_prog with Builder.Ok s => s | Builder.Err _ => Builder.new_store Module end.
+  Definition h0 := ComposeReplayP.replay vop ComposeBuilderP.vid st.
+  Definition cs : list (hcmd vop unit) :=
+    [ HB (AddNode (ExtOp [0%N] [0%N]) (Some 5) None tt);           (* node 13: a new leaf under the nested DFG (node 5) *)
+      HB (AddLink (6, 0%Z) (13, 0%Z));                              (* from the nested region's Input (node 6) *)
+      HB (AddOrder 13 7);                                           (* order link to the nested Output (node 7) *)
+      HSetMeta 13 tt;
+      HB (DelLink (6, 0%Z) (13, 0%Z));
+      HB (AddLink (6, 0%Z) (13, 0%Z));
+      HB (DelNode 13) ].
+End BuilderHistWitness.
+Lemma builder_history_example :
+  BuilderWFS.wt_prog BuilderTypeP.ex2_tys BuilderTypeP.ex2_prog = true /\
+  Builder.exec_prog BuilderTypeP.ex2_tys BuilderTypeP.ex2_prog = Builder.Ok BuilderHistWitness.st /\
+  hist_ok BuilderHistWitness.h0 BuilderHistWitness.cs = true /\
+  hist_on_ports ComposeBuilder.v_vports ComposeBuilder.v_sports ComposeBuilder.v_has_order
+                BuilderHistWitness.h0 BuilderHistWitness.cs = true /\
+  no_add_after_delete BuilderHistWitness.cs = true /\
+  length (h_nodes (view (hrun BuilderHistWitness.h0 BuilderHistWitness.cs))) = 14 /\
+  is_live (view (hrun BuilderHistWitness.h0 BuilderHistWitness.cs)) 13 = false /\
+  length (h_links (view BuilderHistWitness.h0)) = length (h_links (view (hrun BuilderHistWitness.h0 BuilderHistWitness.cs))).
+Proof. repeat split; vm_compute; reflexivity. Qed.
